@@ -177,7 +177,7 @@ def _case_dist(rng, fn, npt, nobj, style, domain=True):
     route = "protocol" if fn == "prob" and rng.random() < 0.3 else "direct"
     if route == "protocol" and domain and rng.random() < 0.5: sign, pref = [1.0] * nobj, [1.0] * nobj
     return {"kind": "dist", "fn": fn, "style": style, "nobj": nobj, "mat": mat, "sign": sign, "pref": pref, "shift": shift,
-            "units": ex, "layout": rng.choice(LAYOUTS), "extra_kw": rng.random() < 0.1, "route": route}
+            "units": ex, "layout": rng.choice(LAYOUTS), "extra_kw": rng.random() < 0.1, "route": route, "session": rng.random() < 0.5}
 
 FNS = ["core", "prob", "transfn"]
 
@@ -204,6 +204,13 @@ def gen_cases(rng, tier):
                 for sign in ([1.0, 1.0], [1.0, -1.0]):
                     cases.append({"kind": "dist", "fn": fn, "style": "grid", "nobj": 2, "mat": front, "sign": sign,
                                   "pref": [a, b], "shift": [0.25, -3.0]})
+    # more points than an 8-bit index can count (survivor indices above 127 / 255)
+    for npt, style in ((140, "small"), (270, "collinear")) if quick else ((140, "small"), (270, "collinear"), (300, "dups"), (200, "tiny"), (260, "fine")):
+        c = _case_pareto(rng, npt, 2, style)
+        c["fmat"] = c["fmat"] + [[max(r[0] for r in c["fmat"]) + 1.0, min(r[1] for r in c["fmat"]) - 1.0]]   # a late survivor for sure
+        c["perm"] = c["perm"] + [npt]
+        if not _exact_rows(c["fmat"], c["wt"]): c["wt"] = [1.0, -1.0]
+        cases.append(c)
     nP, nD, nT, nX = (500, 240, 720, 45) if quick else (3000, 1500, 4500, 240)
     for _ in range(nP):
         nobj = rng.choice([1, 2, 2, 2, 3, 3, 4])
@@ -220,6 +227,10 @@ def gen_cases(rng, tier):
     return cases
 
 # ------------------------------------------------------------------ implementation driver
+def _session(case):
+    """second call on the SAME array object after an in-place update (translated and the points put in reverse order)"""
+    return bool(case.get("session")) and case.get("layout", "c") in ("c", "f", "strided")
+
 def _hx(a):
     return [float(x).hex() for x in numpy.asarray(a, dtype=float).ravel()]
 
@@ -329,8 +340,8 @@ def run_impl(case):
             again = bool(numpy.array_equal(numpy.asarray(call(mat), dtype=float), keep, equal_nan=True))   # ... a later call is unaffected
             d = keep
             sh = numpy.array(case["shift"], dtype=float)[None, :]
-            if mat.flags.writeable and mat.dtype == float and len(case["mat"]) % 2:
-                mat += sh; ds = call(mat)           # the SAME array object, translated in place between the two calls
+            if _session(case):
+                mat[...] = (mat + sh)[::-1]; ds = call(mat)     # the SAME array object, updated in place between the two calls
             else:
                 ds = call(mat + sh)
         return {"d": _hx(d), "d_shape": list(numpy.asarray(d).shape), "d_shift": _hx(ds), "unchanged": unchanged,
@@ -374,7 +385,8 @@ def emit_case(case, out):
         M = E.lst2(case["mat"], _q)
         if "exc" in out:
             return "(tres_agree (%s %s %s %s) ORaised)" % (fnm, M, sign, pref)
-        Ms = E.lst2([[Fraction(x) + Fraction(t) for x, t in zip(r, case["shift"])] for r in case["mat"]], _q)
+        Ms = [[Fraction(x) + Fraction(t) for x, t in zip(r, case["shift"])] for r in case["mat"]]
+        Ms = E.lst2(Ms[::-1] if _session(case) else Ms, _q)
         # the translated front through the body ASSEMBLED FROM THE GENERATED KERNELS of that copy (Gen/C19_Kernel.v)
         knm = {"core": "kern_core", "prob": "kern_body K_prob", "transfn": "kern_body K_fn"}[case["fn"]]
         return "(tres_agree (%s %s %s %s) %s\n   && tres_agree (%s %s %s %s) %s)" % (
@@ -467,6 +479,7 @@ def _pred_dist(case, out):
         return []
     n = len(case["mat"])
     d = [_fh(h) for h in out["d"]]; ds = [_fh(h) for h in out["d_shift"]]
+    if _session(case): ds = ds[::-1]          # the second call saw the points in reverse order
     if out["d_shape"] != [n] or len(ds) != n: return ["output shape %s for %d points" % (out["d_shape"], n)]
     bad = []
     if any(not math.isfinite(x) for x in d + ds):
@@ -484,7 +497,8 @@ def _pred_dist(case, out):
                    "preference vector) gives sqrt(%s) = %r" % (i, d[i], want[i], math.sqrt(want[i])))
     for i in range(n):
         if not _close2(ds[i], want[i]):
-            bad.append("distance of point %d changes under translation by %s: %r vs %r" % (i, case["shift"], ds[i], d[i])); break
+            bad.append("distance of point %d changes under translation by %s%s: %r vs %r" % (
+                i, case["shift"], " (same array updated in place, points reversed)" if _session(case) else "", ds[i], d[i])); break
     if not out["unchanged"]: bad.append("input arrays were modified")
     if out.get("alias"): bad.append("the result shares memory with an input")
     if not out.get("again", True): bad.append("a repeated call on the same inputs gives a different result after the first result was overwritten")
